@@ -261,6 +261,33 @@ def recheck(replay, text):
     return None if r == 'skip' else r
 
 
+def doc_forms():
+    """every string prefix (all spellings) x quote style as the first statement of a module / function / class / one-line body,
+    and as a later statement: docstring or not must agree with ast.get_docstring"""
+    import itertools
+    out = []
+    prefixes = set()
+    for base_ in ['', 'r', 'u', 'b', 'br', 'rb', 'f', 'fr', 'rf']:
+        for combo in itertools.product(*[(c, c.upper()) for c in base_]):
+            prefixes.add(''.join(combo))
+    for pfx in sorted(prefixes):
+        for q in ("'", '"', "'" * 3, '"' * 3):
+            lit = pfx + q + 'doc' + q
+            progs = [lit + '\nx = 1\n',
+                     'def f(a):\n    ' + lit + '\n    return a\n',
+                     'class K:\n    ' + lit + '\n    y = 2\n',
+                     'def g(): ' + lit + '\n',
+                     'async def h():\n    ' + lit + '\n',
+                     'class L: ' + lit + '; z = 3\n',
+                     'import os\n' + lit + '\n',
+                     'def k():\n    pass\n    ' + lit + '\n',
+                     '# comment\n\n' + lit + '\n',
+                     'class M:\n    def m(self):\n        ' + lit + '\n        return 1\n']
+            for j, pr in enumerate(progs):
+                out.append(('docform:%s:%s:%d' % (pfx, q, j), pr))
+    return out
+
+
 def run(ctx, b, drv):
     pend = base.Pending(ctx)
     base.obligations(ctx, b, pend, ['Engine.v'])
@@ -274,6 +301,7 @@ def run(ctx, b, drv):
         srcs.append(('gen:%s:%d' % (kind, i), code))
     for i in range(ngen):
         srcs.append(('derived:%d' % i, gens.derived(gens.rng(ctx.seed, 'derived-C14', i), GV)))
+    srcs.extend(doc_forms())
     used = 0
     for name, code in srcs:
         ctx.count('c14-programs')
